@@ -31,8 +31,8 @@ type c20op struct {
 	Name   string
 	Size   *int32
 	Lt     *int32
-	KeyOf  int    // unlock/renew: hold owner session (-1: garbage key)
-	KeyIdx int    // index into that session's granted list (all grants, live or not)
+	KeyOf  int // unlock/renew: hold owner session (-1: garbage key)
+	KeyIdx int // index into that session's granted list (all grants, live or not)
 	Gap    time.Duration
 	GapWhy string
 }
@@ -70,10 +70,10 @@ type c20sess struct {
 func (s *c20sess) ended() bool { return s.deleted || s.expired }
 
 type c20state struct {
-	T     time.Duration
-	now   time.Duration
-	sess  []*c20sess
-	maxS  int
+	T    time.Duration
+	now  time.Duration
+	sess []*c20sess
+	maxS int
 }
 
 type c20source interface {
